@@ -105,7 +105,8 @@ theorem weights_consistent {ν : Type} (W : Nat → ν) (pairs : List (Nat × Na
 theorem pair_weights_flag : Gen.pairWeightsUnconditional = true := rfl
 
 theorem glue_pinned :
-    Gen.pinIterUnordered = "a80bbc69dae9ab1a" ∧ Gen.pinPatchHistogram = "191fe95584c9adf0" := by decide
+    Gen.pinIterUnordered = "a80bbc69dae9ab1a" ∧ Gen.pinPatchHistogram = "191fe95584c9adf0" ∧
+    Gen.pinProcessPatchPairSched = "6dc1ae67850d260f" := by decide
 
 /-! non-vacuity -/
 example : assignFold [((0, 1), 5), ((1, 1), 7)] (1, 1) = some 7 := by decide
